@@ -224,7 +224,7 @@ func VerifyBC(p *BCProgram, env *BCEnv, want *gen.Ty, st *BCStats, depth int) er
 	}
 	// ---- pass 2: operands, jumps, typed abstract stack
 	type state []*gen.Ty
-	incoming := map[int]state{0: {}}
+	incoming := map[int]state{}
 	merge := func(at int, s state, from int) error {
 		if old, ok := incoming[at]; ok {
 			if len(old) != len(s) {
@@ -240,12 +240,24 @@ func VerifyBC(p *BCProgram, env *BCEnv, want *gen.Ty, st *BCStats, depth int) er
 		incoming[at] = append(state(nil), s...)
 		return nil
 	}
+	// the abstract stack flows linearly; copies are taken only at jumps (so the cost is linear in
+	// the code size, not quadratic in the stack depth)
+	var s state
+	live := true // is the fall-through state valid at the current instruction?
 	for idx, in := range ins {
-		s, reachable := incoming[in.off]
-		if !reachable {
+		if tgt, isTarget := incoming[in.off]; isTarget && in.off != 0 {
+			if live {
+				if err := merge(in.off, s, -1); err != nil {
+					return err
+				}
+			} else {
+				s = append(state(nil), tgt...)
+				live = true
+			}
+		}
+		if !live {
 			return fmt.Errorf("offset %d: %s is unreachable", in.off, in.name)
 		}
-		s = append(state(nil), s...)
 		if len(s) > st.MaxDepth {
 			st.MaxDepth = len(s)
 		}
@@ -503,11 +515,7 @@ func VerifyBC(p *BCProgram, env *BCEnv, want *gen.Ty, st *BCStats, depth int) er
 				s = append(s, prim(spec.push))
 			}
 		}
-		if fallthroughOK {
-			if err := merge(in.next, s, in.off); err != nil {
-				return err
-			}
-		}
+		live = fallthroughOK
 	}
 	return nil
 }
